@@ -184,6 +184,11 @@ Definition need_refresh (l : list imattr) : list imattr :=
 (* state right after hwloc_topology_load() *)
 Definition init_state (t : topo) : mstate := MS t (refresh_all t (need_refresh init_attrs)).
 
+(* state right after hwloc_topology_load() with HWLOC_TOPOLOGY_FLAG_NO_MEMATTRS:
+   hwloc_internal_memattrs_prepare is not called, there is no attribute at all
+   and the ids of the attributes registered by the application start at 0 *)
+Definition init_state_nomem (t : topo) : mstate := MS t [].
+
 (* ------------------------------------------------------------------ *)
 (* attribute table *)
 
@@ -583,8 +588,10 @@ Inductive op :=
 | ODup
 | OXml (t' : topo)
 | ORegisterNull (flags : N)     (* hwloc_memattr_register with a NULL name *)
-| OAllow (incl : bool) (cpuset nodeset : option bset) (flags : N).
-    (* hwloc_topology_allow on a topology loaded with (incl=true) or without INCLUDE_DISALLOWED *)
+| OAllow (incl : bool) (cpuset nodeset : option bset) (flags : N)
+| OXmlNoMem (t' : topo).
+    (* hwloc_topology_allow on a topology loaded with (incl=true) or without INCLUDE_DISALLOWED;
+       OXmlNoMem: XML round trip of a topology loaded with NO_MEMATTRS (the flag is kept for the reload) *)
 
 Inductive out :=
 | RUnit (r : res unit)
@@ -635,6 +642,7 @@ Definition step (s : mstate) (o : op) : mstate * out :=
   | OXml t' => (xml_switch s t', RUnit (Ok tt))
   | ORegisterNull _ => (s, RNum (Err EINVAL))   (* flag checks and the NULL test all end in EINVAL *)
   | OAllow incl c n f => (s, RUnit (allow_result (m_topo s) incl c n f))
+  | OXmlNoMem t' => (init_state_nomem t', RUnit (Ok tt))   (* hwloc__xml_import_memattr ignores every attribute *)
   end.
 
 Definition run (s : mstate) (ops : list op) : mstate := fold_left (fun s o => fst (step s o)) ops s.
